@@ -491,6 +491,30 @@ def run(ctx):
             if bad:
                 ctx.fail(bad[0] + (':' + r['label'] if not backup else ''), (r['label'] + ': ' if backup else '') + bad[1] + (' ($RADICAL_SMT=%d)' % smt_env if smt_env else ''),
                          {'kind': 'agent_side', 'label': r['label'], 'schema': r['schema'], 'nodes': nodes, 'smt_env': smt_env, 'backup': backup})
+    # every shipped platform x access schema can be turned into a batch job: the launcher resolves its job manager
+    # endpoint to an executor
+    from radical.pilot.pmgr.launching.psi_j import PilotLauncherPSIJ
+    pl = object.__new__(PilotLauncherPSIJ)
+    pl._log = rpload.NullLog()
+    nl = 0
+    for r in rows:
+        try:
+            rc = sess.get_resource_config(r['label'], r['schema'] or None)
+            url = str(rc['job_manager_endpoint'])
+        except Exception:
+            continue
+        parts = url.split(':')[0].split('+')
+        managers = [x for x in parts if x not in ('ssh', 'gsissh')]
+        if len(managers) != 1:
+            continue              # (no or several job managers named: not an endpoint this launcher is meant for)
+        nl += 1
+        try: got = pl._get_schema(rc)
+        except Exception as e: got = 'raised %s' % type(e).__name__
+        ctx.case({'launcher_schema': [r['label'], r['schema']]}, nontrivial=len(parts) > 1)
+        if not got or str(got).startswith('raised'):
+            ctx.fail('platform-cannot-be-turned-into-a-batch-job', '%s [%s]: job manager endpoint %s names the job manager %s, the launcher resolves it to %r'
+                     % (r['label'], r['schema'], url, managers[0], got), {'kind': 'launcher_schema', 'label': r['label'], 'schema': r['schema']})
+    ctx.obligation('the pilot launcher resolves the job manager endpoint of every shipped platform x access schema to an executor (%d rows)' % nl, 'tie', nl > 0, '')
     ctx.obligation('the agent\'s resource manager, run on the configuration _prepare_pilot hands it in an allocation of the nodes the job asks '
                    'for, offers the node count, usable cores per node, cores and GPUs of the job (%d pilots)' % na, 'tie', na > 0, '')
     ctx.sample({'op': ops[0], 'real_prepare_pilot': impl[0]}, limit=1)
@@ -537,6 +561,13 @@ def replay(ctx, data):
         except Exception as e:
             print('observed:', repr(e))
             return False
+    if i['kind'] == 'launcher_schema':
+        from radical.pilot.pmgr.launching.psi_j import PilotLauncherPSIJ
+        pl = object.__new__(PilotLauncherPSIJ); pl._log = rpload.NullLog()
+        rc = sess.get_resource_config(i['label'], i['schema'] or None)
+        got = pl._get_schema(rc)
+        print(rc['job_manager_endpoint'], '->', got)
+        return bool(got)
     if i['kind'] == 'size' and i.get('empty_vs_unset'):
         lc = make_launcher(rp, ctx.scratch)
         ra = size_real(rp, lc, sess, i['label'], i['schema'], i['pd'], '')
